@@ -388,6 +388,14 @@ class Gen:
             return self.big_union(ns)
         if depth > 0 and r.random() < self.overlap_bias:
             return self.overlap_union(ns)
+        if r.random() < 0.08:
+            # primitives one of which promotes to an earlier one: the branch of the value's own type comes after a promotion target
+            chain = r.choice([["bytes", "string"], ["string", "bytes"], ["double", "int"], ["long", "int"], ["double", "float", "long", "int"],
+                              ["float", "long"], ["double", "long"], ["double", "float"]])
+            br = [{"k": "prim", "name": x} for x in chain]
+            if r.random() < 0.5:
+                br.insert(r.randint(0, len(br)), {"k": "prim", "name": "null"})
+            return {"k": "union", "br": br}
         n = r.choice([1, 2, 2, 2, 3, 3, 4, 5])
         br = []
         used = set()
@@ -484,7 +492,7 @@ class Gen:
         return False, None
 
     # ------------------------------------------------------------------ rendering to raw JSON
-    def render(self, t, ns="", cosmetic=None, plain=False):
+    def render(self, t, ns="", cosmetic=None, plain=False, in_union=False):
         """IR -> raw schema (Python JSON). Name spelling (dotted vs namespace attribute vs inherited) is varied."""
         r = self.r
         k = t["k"]
@@ -498,7 +506,7 @@ class Gen:
                 return d
             if t.get("ult"):
                 return {"type": t["name"], "logicalType": t["ult"], "maxLength": 7}
-            return t["name"] if (plain or r.random() < 0.85) else {"type": t["name"]}
+            return t["name"] if (plain or r.random() < (0.65 if in_union else 0.85)) else {"type": t["name"]}
         if k == "ref":
             tns = self.defs[t["full"]]["ns"]
             if tns == ns and tns != "" and r.random() < 0.6:
@@ -509,7 +517,7 @@ class Gen:
         if k == "map":
             return {"type": "map", "values": self.render(t["values"], ns)}
         if k == "union":
-            return [self.render(b, ns) for b in t["br"]]
+            return [self.render(b, ns, in_union=True) for b in t["br"]]
         # named types
         d = {"type": "error" if t.get("error") else k}
         tns = t["ns"]
